@@ -791,6 +791,15 @@ func (c *Ctx) Finish() int {
 	nviol := 0
 	known := loadKnown()
 	printedKnown := map[string]bool{}
+	// violations recorded by property-specific code (not by a harness run)
+	// are matched against the listed findings here
+	for i := range c.Viol {
+		for _, k := range known {
+			if k.Kind == "finding" && k.Property == spec.ID && k.Key == c.Viol[i].Key {
+				c.Viol[i].Known = true
+			}
+		}
+	}
 	for _, v := range c.Viol {
 		switch {
 		case v.Known && v.Reproduced:
